@@ -30,6 +30,8 @@ func checkC09(p *Prog, r *Report) {
 	sentinelFallback(p, r, "C09.R8")
 	// the perennial and legume flags, stage sums and partitioning tables of a YAML parameter set reach the fields they are named after (shared with C13.yaml-keys)
 	yamlKeysRule(p, r, "C09.R9", []string{"CropParam", "CropDevelopmentStage"})
+	// effective and photoperiodic day length feed assimilation and development
+	solarClamps(p, r, "C09.R10")
 	r.Note("not decided: finiteness and non-negativity of masses over whole growing seasons (multi-day state), phenology in calendar terms, anything about shipped parameter values")
 }
 
